@@ -19,6 +19,7 @@ const (
 	tokenLEQ = token.LEQ
 )
 
+func mathPow(x, y float64) float64         { return math.Pow(x, y) }
 func mathFloat32bits(f float32) uint32     { return math.Float32bits(f) }
 func mathFloat64bits(f float64) uint64     { return math.Float64bits(f) }
 func mathFloat32frombits(b uint32) float32 { return math.Float32frombits(b) }
